@@ -430,11 +430,12 @@ def c15_step(F):
         F.routing.setdefault((n.id, side), []).append(idx)
         exp = F.sel_answers.get((n.id, side))
         if exp is not None:
+            # the k-th answer of the policy belongs to the k-th item that asked for an edge: moves so far plus (out side) drops so far
             k = len(F.routing[(n.id, side)]) - 1
-            # answers consumed so far that led to an actual move (discards consume an answer without a move)
-            want = F.sel_moves.get((n.id, side), [])
-            if k < len(want) and want[k] != idx:
-                F.soft("C15:item-routed-to-edge-%d-but-policy-answered-%d" % (idx, want[k]), {"node": n.id, "side": side, "k": k})
+            if side == "out":
+                k += sum(1 for r in F.items.values() if r.loc == ("discarded", n))
+            if k < len(exp) and exp[k] != idx:
+                F.soft("C15:item-routed-to-an-edge-other-than-the-policy-answered", {"node": n.id, "side": side, "k": k, "took": idx, "answer": exp[k]})
         if sel == "FIRST_AVAILABLE" or (n.__class__.__name__ == "Sink"):
             # every token of this node on a lower-index edge that was cancelled in this round must have been ungranted
             for t2 in F.toks.values():
@@ -537,7 +538,7 @@ def fan(props=("C03", "C08", "C10"), n_src=2, n_out=1, n_items=2, w=1, blocking=
             pd = ctx.real("pd", 0, 4) if "pd" in sym else 1
             pds = [pd] * (n_src * n_items + 2)
         od = ctx.real("od", 0, 4) if out_delay == "sym" else out_delay
-        idl = ctx.real("id", 0, 2) if in_delay == "sym" else in_delay
+        idl = ctx.real("id", 0, 2) if in_delay in ("sym", "sym-last") else in_delay
         tot = n_src * n_items
         m = F.add_node(Machine(env, "M", work_capacity=w, processing_delay=F.delay_source("M", pds, delay_kind, after=1), blocking=blocking,
                                in_edge_selection=_policy(F, ctx, "M", "in", in_sel, n_src, tot),
@@ -549,7 +550,8 @@ def fan(props=("C03", "C08", "C10"), n_src=2, n_out=1, n_items=2, w=1, blocking=
             s = F.add_node(Source(env, f"S{i}", inter_arrival_time=F.delay_source(f"S{i}", gaps, "generator"), blocking=src_blocking,
                                   out_edge_selection=src_out_sel))
             srcs.append(s)
-            e = _edge(F, in_kind, f"IN{i}", in_cap, idl, **ckw)
+            # in_delay == "sym-last": only the last in-edge has the symbolic delay, the others none (ties between a timer and a put)
+            e = _edge(F, in_kind, f"IN{i}", in_cap, (idl if i == n_src - 1 else 0) if in_delay == "sym-last" else idl, **ckw)
             e.connect(s, m)
         sinks = []
         for j in range(n_out):
